@@ -38,6 +38,10 @@ type c13node struct {
 // deadlines, but the option is there)
 var c13WriteTimeout time.Duration
 
+// c13IdleTimeout != 0: the nodes of the next scenarios are configured with this idle timeout (it governs reads of TCP / UDP
+// connections; custom transports know no deadlines)
+var c13IdleTimeout time.Duration
+
 // c13HeartbeatPeriod != 0: the nodes of the next scenarios send heartbeats at this period and answer ArduPilot heartbeats
 // with stream requests (the node's own traffic shares the channels' queues with the application's)
 var c13HeartbeatPeriod time.Duration
@@ -55,7 +59,7 @@ func c13start(rep *vh.Report, k int, v1 bool, signed bool) *c13node {
 		ver = gomavlib.V1
 	}
 	n.node = &gomavlib.Node{Endpoints: eps, Dialect: testDialect, OutVersion: ver, OutSystemID: 21, HeartbeatDisable: c13HeartbeatPeriod == 0, HeartbeatPeriod: c13HeartbeatPeriod,
-		StreamRequestEnable: c13HeartbeatPeriod != 0, WriteTimeout: c13WriteTimeout}
+		StreamRequestEnable: c13HeartbeatPeriod != 0, WriteTimeout: c13WriteTimeout, IdleTimeout: c13IdleTimeout}
 	if signed && !v1 {
 		n.node.OutKey = frame.NewV2Key([]byte("0123456789abcdef0123456789abcdef"))
 	}
@@ -653,6 +657,7 @@ func TestC13(t *testing.T) {
 			c13stalledReaderGoesOn(rep, seed, job)
 			c13outage(rep, seed, job)
 			c13pendingClose(rep, seed, job)
+			c13udpPeerFlap(rep, seed, job)
 		}
 	}
 	gomavlib.VerifSetHook(nil)
@@ -860,6 +865,90 @@ func c13pendingClose(rep *vh.Report, seed uint64, idx int) {
 	<-n.cons.done
 }
 
+// c13udpPeerFlap: the peer of a UDP client endpoint goes away for a while (its port is closed: the kernel answers the node's
+// datagrams with "port unreachable") while the node keeps writing, and then comes back on the same port. The link is
+// usable again: the node's output reaches the peer once more - over the same channel or, after a reported close, over a
+// fresh one; it does not stay open and mute.
+func c13udpPeerFlap(rep *vh.Report, seed uint64, idx int) {
+	if aborted() {
+		return
+	}
+	prev := gomavlib.VerifSetReconnectPeriod(60 * time.Millisecond)
+	defer gomavlib.VerifSetReconnectPeriod(prev)
+	pc, err := net.ListenPacket("udp4", "127.0.0.1:0")
+	if err != nil {
+		return
+	}
+	addr := pc.LocalAddr().String()
+	node := &gomavlib.Node{Endpoints: []gomavlib.EndpointConf{gomavlib.EndpointUDPClient{Address: addr}}, Dialect: testDialect, OutVersion: gomavlib.V2, OutSystemID: 23,
+		HeartbeatPeriod: 15 * time.Millisecond, IdleTimeout: 10 * time.Second}
+	if err := node.Initialize(); err != nil {
+		pc.Close()
+		rep.Inconclusive("C13 udp peer flap: " + err.Error())
+		return
+	}
+	cons := newConsumer(rep, "C13", "udp-client", node)
+	cons.noAutomaton = true
+	cons.start()
+	var nodeAddr net.Addr
+	count := func(p net.PacketConn, d time.Duration) int {
+		n := 0
+		buf := make([]byte, 600)
+		deadline := time.Now().Add(d)
+		for time.Now().Before(deadline) {
+			_ = p.SetReadDeadline(time.Now().Add(30 * time.Millisecond))
+			if k, a, err := p.ReadFrom(buf); err == nil && k > 0 {
+				n++
+				nodeAddr = a
+			} else if nodeAddr != nil && p != pc {
+				// the peer that is back talks to the node as well (so the link is not idle in the receiving direction)
+				_, _ = p.WriteTo(uidFrame(uint64(n), 0, 9, false, nil, 0), nodeAddr)
+			}
+		}
+		return n
+	}
+	before := count(pc, 150*time.Millisecond)
+	pc.Close() // the peer is gone: port closed
+	for i := 0; i < 20; i++ {
+		for j := 0; j < 6; j++ { // bursts: several datagrams back to back
+			_ = node.WriteMessageAll(&MessageVfUid{Uid: uint64(1000*j + i)})
+		}
+		time.Sleep(10 * time.Millisecond)
+	}
+	pc2, err := net.ListenPacket("udp4", addr)
+	if err != nil {
+		safeClose(rep, node)
+		<-cons.done
+		rep.Inconclusive("C13 udp peer flap: the port could not be bound again: " + err.Error())
+		return
+	}
+	defer pc2.Close()
+	after := 0
+	for w := 0; w < 10 && after == 0; w++ {
+		after = count(pc2, 300*time.Millisecond)
+	}
+	closes := 0
+	for _, ci := range cons.allChannels() {
+		if cons.snapshot(ci).State == 2 {
+			closes++
+		}
+	}
+	if !safeClose(rep, node) {
+		return
+	}
+	<-cons.done
+	rep.Eval(1)
+	rep.Count("udp_peer_flap_runs", 1)
+	rep.Distinct("udp-flap", idx)
+	if before == 0 {
+		rep.Inconclusive("C13 udp peer flap: nothing received from the node before the peer went away")
+		return
+	}
+	if after == 0 {
+		rep.Violation("what=silent-dead:udp-peer-flap ep=udp-client", fmt.Sprintf("the peer of a UDP client endpoint was away for 200 ms (port closed) while the node was writing, and came back: in the 3 s that followed nothing more reached it (heartbeats every 15 ms; %d channel(s) reported closed)", closes), nil)
+	}
+}
+
 // c13outage: an outage - every write on one link fails, without interruption, for several write timeouts (WriteTimeout
 // 80 ms configured; custom transports know no deadlines themselves) while the application keeps writing; then the link
 // works again. The channel was never reported closed: what is written afterwards comes out.
@@ -871,6 +960,11 @@ func c13outage(rep *vh.Report, seed uint64, idx int) {
 	hookReset(r.U64(), false, false)
 	c13WriteTimeout = 80 * time.Millisecond
 	defer func() { c13WriteTimeout = 0 }()
+	if idx%2 == 1 {
+		// ... and an idle timeout shorter than the outage (it is about what the node RECEIVES on connections with deadlines)
+		c13IdleTimeout = 100 * time.Millisecond
+		defer func() { c13IdleTimeout = 0 }()
+	}
 	k := 1 + r.Intn(2)
 	n := c13start(rep, k, false, false)
 	if n == nil {
